@@ -543,7 +543,7 @@ def rule_fraction(ctx):
                 env[s.targets[0].id] = _is_float(s.value, env)
         for c in ast.walk(fn):
             if isinstance(c, ast.Call) and isinstance(c.func, ast.Attribute) and c.func.attr == "cast" and c.args:
-                tgt = norm(c.args[0])
+                tgt = norm(m.consts[c.args[0].id]) if isinstance(c.args[0], ast.Name) and c.args[0].id in m.consts else norm(c.args[0])
                 if "int" not in tgt:
                     continue
                 n += 1
@@ -562,8 +562,11 @@ def rule_fraction(ctx):
     for nd in ast.walk(m.tree):
         for ch in ast.iter_child_nodes(nd):
             parent[id(ch)] = nd
+    def target_text(a):  # the cast target, through a module-level constant (`_TIME_TYPE = pa.int64()`)
+        return norm(m.consts[a.id]) if isinstance(a, ast.Name) and a.id in m.consts else norm(a)
+
     for c in ast.walk(m.tree):
-        if not (isinstance(c, ast.Call) and isinstance(c.func, ast.Attribute) and c.func.attr == "cast" and c.args and "int" in norm(c.args[0])
+        if not (isinstance(c, ast.Call) and isinstance(c.func, ast.Attribute) and c.func.attr == "cast" and c.args and "int" in target_text(c.args[0])
                 and isinstance(c.func.value, ast.Name)):
             continue
         tests, cur, fdef = [], c, None
@@ -582,7 +585,7 @@ def rule_fraction(ctx):
         n2 += 1
         qual = fdef.name
         ok = any("is_time(" in t or "Time64Type" in t or "Time32Type" in t for t in tests)
-        ctx.ob("C17.d2", f"{qual}: the column `{c.func.value.id}` is cast to {norm(c.args[0])} only under a TIME-type test", ok, m.loc(c), str(tests[:1]))
+        ctx.ob("C17.d2", f"{qual}: the column `{c.func.value.id}` is cast to {target_text(c.args[0])} only under a TIME-type test", ok, m.loc(c), str(tests[:1]))
         if not ok:
             ctx.violation("C17.d2", "arrow", qual, c, m.loc(c),
                           f"the result column `{c.func.value.id}` is cast to {norm(c.args[0])} under {tests[:1] or 'no type test'}: only TIME columns are "
